@@ -4,7 +4,7 @@ From VB Require Import Base IR Sem BaseFacts StreamFacts ScanFacts.
 From VB Require Import Classes Consts Common.
 Local Open Scope Z_scope.
 
-Lemma scan_constants : scan_recognised = true /\ scan_p = sp_std (sp_field scan_p).
+Lemma scan_constants : scan_recognised = true /\ scan_p = sp_std (sp_field scan_p) (sp_stop_on_fail scan_p).
 Proof. split; reflexivity. Qed.
 
 Theorem scan_first : forall fuel pre rest s tmp,
@@ -13,5 +13,5 @@ Theorem scan_first : forall fuel pre rest s tmp,
   scan_loop scan_p fuel tmp s = Ok (SIG, advance (zlen pre + 4) s true false).
 Proof.
   intros fuel pre rest s tmp H1 H2 H3 H4 H5 H6. destruct scan_constants as [_ E]. rewrite E.
-  exact (scan_finds_first (sp_field scan_p) fuel pre rest s tmp H1 H2 H3 H4 H5 H6).
+  exact (scan_finds_first (sp_field scan_p) (sp_stop_on_fail scan_p) fuel pre rest s tmp H1 H2 H3 H4 H5 H6).
 Qed.
